@@ -644,3 +644,206 @@ Qed.
 Theorem reachable_Inv cap0 kinds es :
   valid (init cap0 kinds) es -> Inv (fst (run step (init cap0 kinds) es)).
 Proof. apply (run_valid_invariant Inv step_Inv). apply Inv_init. Qed.
+
+(** ** Relating the operation table before and after a step *)
+
+Definition ops_rel (R : op -> op -> Prop) (s s' : sys) : Prop :=
+  forall j, match nth_error (ops s) j, nth_error (ops s') j with
+            | Some o, Some o' => R o o'
+            | None, None => True
+            | _, _ => False
+            end.
+
+Lemma ops_rel_same (R : op -> op -> Prop) s s' :
+  (forall o, R o o) -> ops s' = ops s -> ops_rel R s s'.
+Proof. intros Hr E j. rewrite E. destruct (nth_error (ops s) j); auto. Qed.
+
+Lemma ops_rel_trans (R : op -> op -> Prop) s1 s2 s3 :
+  (forall a b c, R a b -> R b c -> R a c) -> ops_rel R s1 s2 -> ops_rel R s2 s3 -> ops_rel R s1 s3.
+Proof.
+  intros Ht H12 H23 j. specialize (H12 j). specialize (H23 j).
+  destruct (nth_error (ops s1) j), (nth_error (ops s2) j), (nth_error (ops s3) j); eauto; contradiction.
+Qed.
+
+Lemma ops_rel_set_op (R : op -> op -> Prop) s i o o' :
+  (forall o, R o o) -> nth_error (ops s) i = Some o -> R o o' -> ops_rel R s (set_op s i o').
+Proof.
+  intros Hr Hi Ho j. rewrite nth_error_set_op by (eapply nth_error_lt; eauto).
+  destruct (Nat.eqb_spec j i) as [->|Hji]; [rewrite Hi; exact Ho|].
+  destruct (nth_error (ops s) j); auto.
+Qed.
+
+Lemma ops_rel_length R s s' : ops_rel R s s' -> length (ops s') = length (ops s).
+Proof.
+  intros H. destruct (Nat.lt_trichotomy (length (ops s')) (length (ops s))) as [Hl|[Hl|Hl]]; [|exact Hl|].
+  - specialize (H (length (ops s'))).
+    destruct (nth_error (ops s) (length (ops s'))) eqn:E1.
+    + destruct (nth_error (ops s') (length (ops s'))) eqn:E2; [|contradiction].
+      apply nth_error_lt in E2. lia.
+    + apply nth_error_None in E1. lia.
+  - specialize (H (length (ops s))).
+    destruct (nth_error (ops s') (length (ops s))) eqn:E1.
+    + destruct (nth_error (ops s) (length (ops s))) eqn:E2; [|contradiction].
+      apply nth_error_lt in E2. lia.
+    + apply nth_error_None in E1. lia.
+Qed.
+
+Lemma ops_rel_some R s s' j o :
+  ops_rel R s s' -> nth_error (ops s) j = Some o -> exists o', nth_error (ops s') j = Some o' /\ R o o'.
+Proof. intros H Hj. specialize (H j). rewrite Hj in H. destruct (nth_error (ops s') j); [eauto|contradiction]. Qed.
+
+(** What no step ever changes about an operation: kind, kernel-side cancelability; the attempt
+    counter only counts up; a freed state stays freed; a dropped future stays dropped. *)
+Definition stable (o o' : op) : Prop :=
+  kd o' = kd o /\ cancelable o' = cancelable o /\ (attempts o <= attempts o')%N
+  /\ (freed o = true -> freed o' = true) /\ (st o = Dropped -> st o' = Dropped).
+
+Lemma stable_refl o : stable o o.
+Proof. unfold stable. repeat split; auto. lia. Qed.
+
+Lemma stable_trans a b c : stable a b -> stable b c -> stable a c.
+Proof. unfold stable. intros (A1 & A2 & A3 & A4 & A5) (B1 & B2 & B3 & B4 & B5). repeat split; try congruence; auto. lia. Qed.
+
+Ltac stable_leaf := unfold stable; op_cbn; repeat split; auto; try congruence; try lia.
+
+Lemma ops_rel_ext (R : op -> op -> Prop) s s' s'' :
+  ops s'' = ops s' -> ops_rel R s s' -> ops_rel R s s''.
+Proof. intros E H j. rewrite E. apply H. Qed.
+
+Lemma poll_start_stable s i o o1 w :
+  nth_error (ops s) i = Some o -> stable o o1 -> st o1 <> Dropped ->
+  ops_rel stable s (fst (poll_start s i o1 w)).
+Proof.
+  intros Hi Ho Hnd. unfold poll_start. destruct (has_room s); cbn [fst].
+  - eapply ops_rel_ext; [|apply (ops_rel_set_op stable s i o); [exact stable_refl|exact Hi|]];
+      [reflexivity|].
+    destruct Ho as (A1 & A2 & A3 & A4 & A5). stable_leaf. intros H. elim Hnd. auto.
+  - eapply ops_rel_ext; [|apply (ops_rel_set_op stable s i o); [exact stable_refl|exact Hi|exact Ho]].
+    reflexivity.
+Qed.
+
+Lemma poll_stable s i w : ops_rel stable s (fst (poll s i w)).
+Proof.
+  unfold poll. destruct (nth_error (ops s) i) as [o|] eqn:Hi;
+    [|apply ops_rel_same; [exact stable_refl|reflexivity]].
+  assert (Hset : forall o', stable o o' -> ops_rel stable s (set_op s i o')).
+  { intros o' Ho'. apply (ops_rel_set_op stable s i o); auto using stable_refl. }
+  assert (Hid : ops_rel stable s s) by (apply ops_rel_same; [exact stable_refl|reflexivity]).
+  destruct (st o) eqn:Est.
+  - apply (poll_start_stable s i o); [exact Hi|apply stable_refl|congruence].
+  - destruct (kd o); [|destruct rs]; cbn [fst]; apply Hset; stable_leaf.
+  - assert (Hre : ops_rel stable s (fst (poll_start s i (new_attempt (with_st o NotStarted)) w))).
+    { apply (poll_start_stable s i o); [exact Hi| |op_cbn; discriminate]. stable_leaf. }
+    destruct (kd o); destruct rs as [|c rs']; cbn [fst]; auto; try (apply Hset; stable_leaf).
+    + destruct (0 <=? res c)%Z; [apply Hset; stable_leaf|].
+      destruct (is_restart c); [exact Hre|apply Hset; stable_leaf].
+    + destruct (0 <=? res c)%Z; [apply Hset; stable_leaf|].
+      destruct (is_restart c); [|apply Hset; stable_leaf].
+      destruct rs'; [exact Hre|apply Hset; stable_leaf].
+  - exact Hid.
+  - exact Hid.
+Qed.
+
+Lemma drop_stable s i : ops_rel stable s (fst (drop_op s i)).
+Proof.
+  unfold drop_op. destruct (nth_error (ops s) i) as [o|] eqn:Hi;
+    [|apply ops_rel_same; [exact stable_refl|reflexivity]].
+  assert (Hid : ops_rel stable s s) by (apply ops_rel_same; [exact stable_refl|reflexivity]).
+  destruct (st o) eqn:Est; cbn [fst]; auto;
+    try (apply (ops_rel_set_op stable s i o); [exact stable_refl|exact Hi|stable_leaf]).
+  destruct (has_room s).
+  - intros j. specialize (ops_rel_set_op stable s i o (with_st o Dropped) stable_refl Hi) as H.
+    rewrite nth_error_set_op by (cbn [push_sq ops]; eapply nth_error_lt; eauto).
+    cbn [push_sq ops]. specialize (H ltac:(stable_leaf) j).
+    rewrite nth_error_set_op in H by (eapply nth_error_lt; eauto). exact H.
+  - apply (ops_rel_set_op stable s i o); [exact stable_refl|exact Hi|stable_leaf].
+Qed.
+
+Lemma update_stable s i c : ops_rel stable s (fst (update s i c)).
+Proof.
+  unfold update. destruct (nth_error (ops s) i) as [o|] eqn:Hi;
+    [|apply ops_rel_same; [exact stable_refl|reflexivity]].
+  assert (Hid : ops_rel stable s s) by (apply ops_rel_same; [exact stable_refl|reflexivity]).
+  assert (Hset : forall o', stable o o' -> ops_rel stable s (set_op s i o')).
+  { intros o' Ho'. apply (ops_rel_set_op stable s i o); auto using stable_refl. }
+  destruct (st o) eqn:Est; cbn [fst]; auto.
+  - destruct (negb (more c) || _); [destruct (waker o)|]; cbn [fst]; apply Hset; stable_leaf;
+      destruct (negb (more c)); discriminate.
+  - destruct (negb (more c) || _); [destruct (waker o)|]; cbn [fst]; apply Hset; stable_leaf;
+      destruct (negb (more c)); discriminate.
+  - destruct (more c); cbn [fst]; apply Hset; stable_leaf.
+Qed.
+
+Lemma process_stable f : forall s, ops_rel stable s (fst (process f s)).
+Proof.
+  induction f as [|f IH]; intros s; cbn [process];
+    [apply ops_rel_same; [exact stable_refl|reflexivity]|].
+  destruct (cq s) as [|[t c] r]; [apply ops_rel_same; [exact stable_refl|reflexivity]|].
+  destruct t as [i|].
+  - pose proof (update_stable (pop_cq s (Some i) c r) i c) as Hu.
+    destruct (update (pop_cq s (Some i) c r) i c) as [s1 o1]. cbn [fst] in Hu.
+    specialize (IH s1). destruct (process f s1) as [s2 o2]. cbn [fst] in *.
+    apply (ops_rel_trans stable _ s1); [exact stable_trans| |exact IH].
+    intros j. exact (Hu j).
+  - specialize (IH (pop_cq s None c r)). intros j. exact (IH j).
+Qed.
+
+(** Phase one of [Ring::poll]: [enter] (only when no completion is pending). *)
+Definition phase1 (s : sys) : sys * list obs :=
+  match cq s with
+  | [] =>
+      let queued := sq s in
+      let s' := fold_left kconsume queued (take_sq s) in
+      let consumed := map OConsumed queued in
+      if negb (Nat.eqb (length queued) 0) || negb (Nat.eqb (length (cq s')) 0) then
+        let '(s'', ow) := wake_blocked s' in (s'', consumed ++ ow)
+      else (s', consumed)
+  | _ => (s, [])
+  end.
+
+Lemma ring_poll_phases s :
+  ring_poll s = let '(s1, o1) := phase1 s in
+                let '(s2, o2) := process (length (cq s1)) s1 in (s2, o1 ++ o2).
+Proof. reflexivity. Qed.
+
+Lemma kconsume_ops s e : ops (kconsume s e) = ops s.
+Proof.
+  destruct e as [i|i]; cbn [kconsume]; [reflexivity|].
+  destruct (existsb (Nat.eqb i) (inflight s)); [|reflexivity].
+  destruct (nth_error (ops s) i) as [o|]; [|reflexivity]. destruct (cancelable o); reflexivity.
+Qed.
+
+Lemma kconsume_all_ops q : forall s, ops (fold_left kconsume q s) = ops s.
+Proof. induction q as [|e q IH]; intros s; cbn [fold_left]; [reflexivity|]. rewrite IH. apply kconsume_ops. Qed.
+
+Lemma phase1_ops s : ops (fst (phase1 s)) = ops s.
+Proof.
+  unfold phase1. destruct (cq s); [|reflexivity].
+  destruct (negb _ || negb _); cbn [fst wake_blocked ops]; rewrite kconsume_all_ops; reflexivity.
+Qed.
+
+Lemma phase1_Inv s : Inv s -> Inv (fst (phase1 s)).
+Proof.
+  intros Hinv. unfold phase1. destruct (cq s); [|exact Hinv].
+  assert (Hk : Inv (fold_left kconsume (sq s) (take_sq s))).
+  { apply kconsume_all_Inv. rewrite set_sq_same. exact Hinv. }
+  destruct (negb _ || negb _); [|exact Hk]. apply (wake_blocked_Inv _ Hk).
+Qed.
+
+Lemma ring_poll_stable s : ops_rel stable s (fst (ring_poll s)).
+Proof.
+  rewrite ring_poll_phases. pose proof (phase1_ops s) as H1. destruct (phase1 s) as [s1 o1].
+  cbn [fst] in H1. pose proof (process_stable (length (cq s1)) s1) as Hp.
+  destruct (process (length (cq s1)) s1) as [s2 o2]. cbn [fst] in *.
+  intros j. specialize (Hp j). rewrite H1 in Hp. exact Hp.
+Qed.
+
+Theorem step_stable s e : ops_rel stable s (fst (step s e)).
+Proof.
+  destruct e as [i w|i| |i c]; cbn [step fst].
+  - apply poll_stable.
+  - apply drop_stable.
+  - apply ring_poll_stable.
+  - apply ops_rel_same; [exact stable_refl|]. unfold kpost.
+    destruct (existsb _ _); [|reflexivity]. destruct (more c); reflexivity.
+Qed.
